@@ -78,7 +78,7 @@ PROPS = {
                 pending=['big-step corollary: the log of a strict node is the concatenation of its children\'s logs']),
     'C10': dict(obligations=lambda: P('SqProps.C10'),
                 slices=['scope', 'session_scope'], monitors=['c10'],
-                pending=['scope_balanced (scopes.length = 1 + #popScope frames, invariant of step)']),
+                pending=['lambda-scope writes never reach an outer binding of the same name: heap-level frame lemma for writeTop over whole runs (one-transition lemma writes_go_to_top proved; scope_balanced proved over all runs)']),
     'C11': dict(obligations=lambda: P('SqProps.C11') + SHAPE_RESETS,
                 slices=['session'], monitors=['c11'],
                 pending=['eval_indep_partial lifted to histories with evals (closure-free names)']),
